@@ -130,6 +130,12 @@ theorem rejected_falls_back (s : Str) (h : isVersion s = some false) : selectCon
   have h2 : isContainerWord ['1', '.', '4'] = false := by decide
   simp [h1, h2, parseVersion_14, selectConstSections_14]
 
+/-- **Invalid strings.**  Every string without a decimal digit — "abc", "", "None", any text — other
+    than awesomeversion's four container words is rejected and selects the 1.4 tables. -/
+theorem nonnumeric_falls_back (s : Str) (hd : hasDigit (versionString s) = false)
+    (hc : isContainerWord (versionString s) = false) : selectConst s = some .v14 :=
+  rejected_falls_back s (isVersion_noDigit s hd hc)
+
 /-! ### the corollaries the property names -/
 
 theorem v2_0 : selectConst "2.0".toList = some .v20 := by
@@ -273,6 +279,9 @@ example : construct .mqtt [.pub_callback, .sub_callback, .timeout] = .typeError 
 /-- without the `pop`s in the serial base class the README example would fail (the pre-fix code) -/
 example : runChain [stLeaf "SerialGateway", stBaseGw "BaseSyncGateway", { stBaseSerial with pops := [] }, stGateway]
     [.port, .timeout] = .typeError "Gateway" .timeout := by decide
+
+example : selectConst "None".toList = some .v14 := nonnumeric_falls_back _ (by decide) (by decide)
+example : selectConst [] = some .v14 := nonnumeric_falls_back _ (by decide) (by decide)
 
 example : IsFloor (2, 0, 5) .v20 := by
   left
